@@ -87,8 +87,9 @@ def altitude_from_pressure_map_v0(map: npt.ArrayLike):
     longitudes = np.linspace(-180, 180, map.shape[1])
 
     def f(lat: float, long: float, *args, **kwargs) -> np.single:
-        i = np.searchsorted(latitudes, lat)
-        j = np.searchsorted(longitudes, lat)
+        # event coordinates arrive in radians, the map grid is in degrees
+        i = np.searchsorted(latitudes, np.degrees(lat))
+        j = np.searchsorted(longitudes, np.degrees(long))
         pressure: np.single = map[i, j]
         return atm.us_std_atm_altitude_from_pressure(pressure)
 
